@@ -11,7 +11,9 @@ RULE = ('seeded random histories of 1-25 World operations interleaved with enabl
         'operation.  Non-trivial: >= 2 operations and a non-empty get(); distinct by scenario hash.')
 TAGS = ('cb', 'ish', 'ctl', 'res')
 CLAUSES = {'unexpected-callback', 'missing-callback', 'wrong-callback', 'registered-iff-attached',
-           'controller-owner', 'outcome', 'shape', 'truncated', 'hang'}
+           'controller-owner', 'outcome', 'shape', 'truncated', 'hang',
+           # known-finding territory (recorded by the oracle, matched against known_findings.jsonl)
+           'clear-while-disabled-loses-postponed', 'duplicate-type-in-create-entity'}
 generate, project, oracle, nontrivial, stats = _world.make(
     'C02', TAGS, CLAUSES, [
         dict(n_proc=(0, 1), handlers=0.85, ctrl=0.2, raises=0.3,
